@@ -288,6 +288,9 @@ func sub(a, b Term) Term {
 	if b == "0" {
 		return a
 	}
+	if a == b {
+		return "0"
+	}
 	return "(- " + a + " " + b + ")"
 }
 func le(a, b Term) Term { return "(<= " + a + " " + b + ")" }
